@@ -105,6 +105,8 @@ def build_c03(rng, tier):
     order = list(range(5))
     rng.shuffle(order)
     opts['flag_order'] = order
+    if rng.random() < 0.3:
+        opts['alias_seed'] = rng.randrange(1, 2 ** 31)
     return lp_base(rng, inst, opts)
 
 
@@ -644,7 +646,36 @@ def build_c12(rng, tier):
     return gen_base(rng, p)
 
 
+def build_c13_huge(rng):
+    """five-digit agent ids in the written lists (file is only loaded)"""
+    mp = rng.choice(['ha', 'hr'])
+    p = gen_params(rng, mp=mp)
+    if rng.random() < 0.6:
+        p['n1'] = rng.randint(1, 3)
+        p['n2'] = rng.randint(10001, 10030)      # first-side lists: ids >= 10^4
+        p['pmax'] = rng.randint(2, 6)
+    else:
+        mp = p['mp'] = 'hr'
+        p['twopl'] = True
+        p['n1'] = rng.randint(10001, 10030)      # second-side lists: ids >= 10^4
+        p['n2'] = rng.randint(1, 2)
+        p['pmax'] = 1
+    p['pmin'] = rng.randint(1, p['pmax'])
+    p['uq'] = max(p['n1'], p['n2'])
+    p['lq'] = None
+    p['skew'] = None
+    p['t1'] = rng.choice([.3, .5, .7, 1])
+    if mp != 'ha':
+        p['t2'] = rng.choice([.3, .5, .7, 1])
+    p['numinst'] = 1
+    sessions = [{'file': '0.txt', 'na': 2, 'twopl': bool(p['twopl']),
+                 'opts': {'criteria': []}, 'ops': []}]
+    return gen_base(rng, p, sessions=sessions, spy_ties=True)
+
+
 def build_c13(rng, tier):
+    if rng.random() < 0.002:
+        return build_c13_huge(rng)
     mp = rng.choice(['ha', 'sm', 'hr', 'spa', 'spa'])
     p = gen_params(rng, mp=mp, big_lists=True,
                    twopl=(rng.random() < 0.8))
@@ -706,6 +737,17 @@ def build_c09(rng, tier):
         return build_c09_big(rng, tier)
     mp = rng.choice(['ha', 'sm', 'hr', 'spa', 'spa'])
     p = gen_params(rng, mp=mp, small=True)
+    wide = rng.random() < 0.06
+    if wide:
+        # two-digit ids on both sides, lists of length one (2^12 assignments)
+        p['n1'] = rng.randint(11, 12)
+        if mp != 'sm':
+            p['n2'] = rng.randint(11, 12)
+            p['uq'] = p['n2'] + rng.randint(0, 4)
+            p['lq'] = None
+        if mp == 'spa':
+            p['luq'] = max(p['luq'], p['n3'])
+        p['pmin'] = p['pmax'] = 1
     p['numinst'] = rng.choice([1, 1, 2])
     na = 3 if mp == 'spa' else 2
     twopl = bool(p['twopl'])
@@ -732,6 +774,10 @@ def build_c09(rng, tier):
             'backend': {'policy': rng.choice(POLICIES),
                         'choice_seed': rng.randrange(2 ** 31),
                         'duration_seed': rng.randrange(2 ** 31)}})
+        if rng.random() < 0.12:
+            sessions[-1]['backend']['value_noise'] = rng.randrange(1, 2 ** 31)
+        if wide:
+            continue        # brute force would enumerate 13^12 assignments
         sessions.append({
             'file': '%d.txt' % k, 'na': na, 'twopl': twopl,
             'opts': {'criteria': [], 'bf': True, 'pc': rng.random() < 0.4},
